@@ -23,7 +23,6 @@ warnings.simplefilter("ignore")
 
 from jsonargparse import ActionConfigFile, ArgumentError, ArgumentParser, Namespace  # noqa: E402
 from jsonargparse import _loaders_dumpers as ld  # noqa: E402
-from jsonargparse._formatters import get_env_var  # noqa: E402
 
 ENUMS = {}
 
@@ -76,6 +75,8 @@ def untag(v):
     if isinstance(v, dict):
         if "f" in v:
             return float(v["f"])
+        if "i" in v:
+            return int(v["i"])
         if "l" in v:
             return [untag(x) for x in v["l"]]
         if "d" in v:
@@ -198,6 +199,8 @@ def dig(obj, key):
 
 
 def run_case(case, tmp):
+    for f in typing._cleanups:   # typing caches List[Union[int, str]] == List[Union[str, int]]: member order matters here
+        f()
     T = build_type(case["ty"])
     key = case["key"]
     dest = ".".join(key)
@@ -218,29 +221,37 @@ def run_case(case, tmp):
         files[name] = path
     for mode in case["modes"]:
         p = make_parser(case, T, mode)
-        action = next(a for a in p._actions if a.dest == dest)
-        envvar = get_env_var(p, action)
-        cfgvar = get_env_var(p, next(a for a in p._actions if a.dest == "cfg"))
+        # the documented naming rule, computed here and not asked from the implementation:
+        # [PREFIX_]KEY upper-cased, '.' -> '__', '-' in the prefix -> '_'; prefix True = program name without extension
+        pre = {True: "tool", False: None}.get(case["prefix"], case["prefix"]) if isinstance(case["prefix"], bool) else case["prefix"]
+        pre = "" if pre is None else pre.replace("-", "_") + "_"
+        envvar = (pre + dest.replace(".", "__")).upper()
+        cfgvar = (pre + "cfg").upper()
         m = mode + "/"
+        full = mode == "yaml" or case.get("full")
         chan[m + "argv_eq"] = outcome(lambda: p.parse_args([opt + "=" + text]), dest)
-        if not text.startswith("-"):
+        if not text.startswith("-") and full:
             chan[m + "argv_sp"] = outcome(lambda: p.parse_args([opt, text]), dest)
         chan[m + "object_nested"] = outcome(lambda: p.parse_object(json.loads(json.dumps(nested))), dest)
-        chan[m + "object_dotted"] = outcome(lambda: p.parse_object({dest: json.loads(json.dumps(val))}), dest)
         chan[m + "env"] = outcome(lambda: p.parse_env({envvar: text}), dest)
-        os.environ[envvar] = text
-        try:
-            chan[m + "env_args"] = outcome(lambda: p.parse_args([], env=True), dest)
-        finally:
-            del os.environ[envvar]
+        if full:
+            chan[m + "object_dotted"] = outcome(lambda: p.parse_object({dest: json.loads(json.dumps(val))}), dest)
+            os.environ[envvar] = text
+            try:
+                chan[m + "env_args"] = outcome(lambda: p.parse_args([], env=True), dest)
+            finally:
+                del os.environ[envvar]
         for name, doc in docs.items():
+            if mode == "json" and not name.startswith("json"):
+                continue   # a YAML block document is not a setting one can hand to a json-mode parser
             chan[m + "string:" + name] = outcome(lambda: p.parse_string(doc), dest)
-            chan[m + "path:" + name] = outcome(lambda: p.parse_path(files[name]), dest)
             chan[m + "cfgfile:" + name] = outcome(lambda: p.parse_args(["--cfg", files[name]]), dest)
-            chan[m + "cfgstr:" + name] = outcome(lambda: p.parse_args(["--cfg=" + doc]), dest)
-            chan[m + "cfgenv:" + name] = outcome(lambda: p.parse_env({cfgvar: doc}), dest)
-            pd = make_parser(case, T, mode, dcf=[files[name]])
-            chan[m + "default_config:" + name] = outcome(lambda: pd.parse_args([]), dest)
+            if full:
+                chan[m + "path:" + name] = outcome(lambda: p.parse_path(files[name]), dest)
+                chan[m + "cfgstr:" + name] = outcome(lambda: p.parse_args(["--cfg=" + doc]), dest)
+                chan[m + "cfgenv:" + name] = outcome(lambda: p.parse_env({cfgvar: doc}), dest)
+                pd = make_parser(case, T, mode, dcf=[files[name]])
+                chan[m + "default_config:" + name] = outcome(lambda: pd.parse_args([]), dest)
             ans = load_answer(ld.loaders[mode], doc)
             if ans[0] == "val":
                 try:
@@ -255,7 +266,9 @@ def run_case(case, tmp):
         if s not in seen:
             seen.add(s)
             oracle.append([s, load_answer(ld.yaml_load, s)])
-    return {"chan": chan, "loaded": loaded, "oracle": oracle, "envvar": envvar}
+    from jsonargparse._namespace import clash_names
+
+    return {"chan": chan, "loaded": loaded, "oracle": oracle, "envvar": envvar, "clash": any(k in clash_names for k in key)}
 
 
 def untag_loaded(t):
